@@ -3,6 +3,7 @@ import os
 import subprocess
 import common as C
 import corr_units as U
+import math
 
 PID = "C16"
 PROPS_MODULE = "Props.C16"
@@ -108,6 +109,17 @@ def correspondence(ctx):
             for n in real & set(depth):
                 if nodes[n][0] != depth[n]:
                     bad_prop.append((root, f"{n} sits on row {nodes[n][0]} but its minimum number of decays from the root is {depth[n]}"))
+                    break
+            # each node's label names the nuclide's readable half-life, which must denote the half-life the data set lists
+            for nid, _, _, lab in g["N"]:
+                nm, lab = dec(nid), dec(lab)
+                if nm.endswith("_SF") or nm not in progeny:
+                    continue
+                rd_str = lab.split("\n")[1] if "\n" in lab else ""
+                hv, hu = float(d["hldata"][names.index(nm)][0]), str(d["hldata"][names.index(nm)][1])
+                secs = math.inf if hv == math.inf else U.half_life_seconds(hv, hu, float(d["year_conv"]))
+                if not U.readable_denotes(rd_str, secs, float(d["year_conv"])):
+                    bad_prop.append((root, f"node {nm} is labelled {rd_str!r}, which does not denote its half-life of {hv} {hu}"))
                     break
             pos = [(gen, x) for _, gen, x, _ in g["N"]]
             if len(set(pos)) != len(pos) or "BADPOS" in g["raw"]:
